@@ -49,6 +49,7 @@ type structObs struct {
 type namedObs struct {
 	Kind, ID, Local, PkgName, PkgPath string
 	Members                           []string // union: member local names ; enum: exported constant names
+	Hidden                            []string // enum: unexported constant names
 }
 
 type obsResult struct {
@@ -236,6 +237,8 @@ func (w *walker) visitAt(node analysis.Type, at types.Type, atCoq string) {
 			for _, m := range n.Members {
 				if m.Const.Exported() {
 					no.Members = append(no.Members, m.Const.Name())
+				} else {
+					no.Hidden = append(no.Hidden, m.Const.Name())
 				}
 			}
 		}
